@@ -4,6 +4,9 @@
 Case kinds (abstract inputs; the same input goes to the real code and to the Coq model):
   struct   an expression over analyses (any bracketing, `sum([...])`, with_model leaves, the same
            analysis twice, with_free_parameters anywhere): class and members of the result, or the error
+  (every kind also with the SAME analysis object written more than once -- a + b + a, a + (b + a),
+   (a + b) + (a + b), sum([c, c, c]) and random repetitions -- and with distinct analyses that compare
+   and hash equal; hist / idx histories of such sums start with evaluations made before any pool exists)
   hist     a sum of plain analyses + a history of evaluations (some raising FitException / ValueError),
            visualize calls (through AnalysisPool.map when a pool exists), changes of n_cores (setter or
            general.yaml), and a scripted schedule of the pool for every call
@@ -139,6 +142,64 @@ def all_trees(leafs):
     return out
 
 
+
+# ---------------------------------------------------------------------------
+# sums in which the same analysis occurs more than once
+# ---------------------------------------------------------------------------
+def dup_shapes(leaf):
+    """the named shapes over two (one) analyses a, b (c); leaf(j) -> leaf node of analysis j"""
+    a, b = lambda: leaf(0), lambda: leaf(1)
+    return [
+        ("a+b+a", {"add": [{"add": [a(), b()]}, a()]}),
+        ("a+(b+a)", {"add": [a(), {"add": [b(), a()]}]}),
+        ("(a+b)+(a+b)", {"add": [{"add": [a(), b()]}, {"add": [a(), b()]}]}),
+        ("sum([c,c,c])", {"sum": [a(), a(), a()]}),
+        ("a+a", {"add": [a(), a()]}),
+        ("sum([a,b,b,a])", {"sum": [a(), b(), b(), a()]}),
+    ]
+
+
+def dup_ids(rng, n):
+    """n positions holding fewer than n distinct analyses (every analysis 0..k-1 occurs, k < n)"""
+    k = rng.randint(1, n - 1)
+    ids = list(range(k)) + [rng.randrange(k) for _ in range(n - k)]
+    rng.shuffle(ids)
+    return ids, k
+
+
+def multiplicity(lv):
+    """per position: the number of positions holding the same analysis OBJECT; `a` and `a.with_model(m)` are
+    two objects (the harness builds one object per (analysis id, wrapper) and reuses it)"""
+    return [sum(1 for y in lv if y == x) for x in lv]
+
+
+def twin(rng, ads):
+    """two DISTINCT analyses with equal content: they compare and hash equal (VA.__eq__/__hash__)"""
+    if len(ads) >= 2:
+        i, j = rng.sample(range(len(ads)), 2)
+        ads[j] = json.loads(json.dumps(ads[i]))
+        return True
+    return False
+
+
+def serial_prefix(rng, value, k=None):
+    """evaluations / visualize calls made before anything touches n_cores (no pool exists yet)"""
+    out = []
+    for _ in range(k or rng.randint(1, 3)):
+        out.append(["eval" if rng.random() < 0.8 else "map", value(), []])
+    return out
+
+
+def has_repeat(c):
+    lv = leaves(desugar(c["expr"]))
+    return len(set(lv)) < len(lv)
+
+
+def has_twin(c):
+    ads = c.get("ads") or []
+    used = sorted(set(j for j, _ in leaves(desugar(c["expr"]))))
+    return any(ads[i] == ads[j] for i in used for j in used if i < j and i < len(ads) and j < len(ads))
+
 # ---------------------------------------------------------------------------
 # generator
 # ---------------------------------------------------------------------------
@@ -258,12 +319,22 @@ def gen_cases(ctx):
                 cases.append({"kind": "struct", "expr": t})
         for t in all_trees([{"j": j} for j in range(n)]):
             cases.append({"kind": "struct", "expr": {"free": t}})
+    # the same analysis object written more than once: the named shapes x with_model patterns, free on top
+    for pat in range(4):
+        hm = [bool(pat & 1), bool(pat >> 1 & 1)]
+        for _, t in dup_shapes(lambda j: {"j": j, "hm": hm[j]}):
+            cases.append({"kind": "struct", "expr": t})
+            cases.append({"kind": "struct", "expr": {"free": t}})
+    cases.append({"kind": "struct", "expr": {"sum": [{"j": 0}, {"j": 0, "hm": True}, {"j": 0}, {"j": 0, "hm": True}]}})
     for _ in range(100 if not thorough else 1500):
         n = rng.randint(3, 7 if not thorough else 12)
         ids = list(range(n))
         rng.shuffle(ids)
-        if rng.random() < 0.15:
-            ids[rng.randrange(n)] = ids[0]                      # the same analysis object written twice
+        r = rng.random()
+        if r < 0.15:
+            ids[rng.randrange(1, n)] = ids[0]                   # the same analysis object written twice
+        elif r < 0.3:
+            ids, _ = dup_ids(rng, n)                            # ... or several of them several times
         pm = rng.choice([0.0, 0.0, 0.25, 0.5])
         leafs = [{"j": j, "hm": rng.random() < pm} for j in ids]
         r = rng.random()
@@ -283,21 +354,46 @@ def gen_cases(ctx):
     pool_vals = [-3, -2, -1, 0, 1, 2, 3, 7]
     for k in range(120 if not thorough else 2000):
         n = rng.choice([2, 2, 3, 3, 4, 5, 6] + ([8, 10, 12] if thorough else []))
-        ids = list(range(n))
-        if rng.random() < 0.5:
+        ids, nd = list(range(n)), n
+        repeated = k % 3 == 1
+        if repeated:
+            ids, nd = dup_ids(rng, n)                 # n positions, nd < n analysis objects
+        elif rng.random() < 0.5:
             rng.shuffle(ids)
-        ads = gen_ads(rng, n, 1, pool_vals, vis=True)
-        if rng.random() < 0.25:
+        ads = gen_ads(rng, nd, 1, pool_vals, vis=True)
+        twinned = (not repeated) and k % 6 == 2 and twin(rng, ads)     # distinct objects that compare / hash equal
+        if rng.random() < 0.25 or ((repeated or twinned) and rng.random() < 0.5):
             for a in ads:
                 a["fail"], a["fail2"] = [], []
         expr = {"sum": [{"j": j} for j in ids]} if rng.random() < 0.4 else rand_tree(rng, [{"j": j} for j in ids])
         max_cores = rng.choice([4, n, n + 2])
         conf_cores = rng.choice([2, 3]) if k % 4 == 3 else None      # n_cores from general.yaml (read by the constructor)
-        ops = gen_ops(rng, n, rng.randint(3, 10), lambda: rng.choice(pool_vals), max_cores, c0=conf_cores or 1)
+        value = lambda: rng.choice(pool_vals)
+        ops = gen_ops(rng, n, rng.randint(3, 10), value, max_cores, c0=conf_cores or 1)
+        if not conf_cores and (repeated or twinned or rng.random() < 0.2):
+            ops = serial_prefix(rng, value) + ops                    # evaluated before any pool exists
         case = {"kind": "hist", "ads": ads, "expr": expr, "ops": ops, "scale": rng.choice([1, 1, 1024])}
         if conf_cores:
             case["conf_cores"] = conf_cores
         cases.append(case)
+    # ---- hist, the named shapes with a repeated analysis: serial first, then the random history (pool, raising calls,
+    #      back to one core, modify_before_fit); once more with the pool made by the constructor
+    for si, (_, expr) in enumerate(dup_shapes(lambda j: {"j": j})):
+        for conf_cores in (None, 2) if si < 3 else (None,):
+            n = len(leaves(desugar(expr)))
+            ads = gen_ads(rng, 2, 1, pool_vals, vis=True)
+            for a in ads:
+                a["c"] = a["c"] or 7
+                if si % 2 == 0:
+                    a["fail"], a["fail2"] = [], []
+            value = lambda: rng.choice(pool_vals)
+            ops = gen_ops(rng, n, rng.randint(4, 8), value, n + 1, c0=conf_cores or 1, p_mod=0.2)
+            if not conf_cores:
+                ops = serial_prefix(rng, value, 2) + [["map", value(), []]] + ops
+            case = {"kind": "hist", "ads": ads, "expr": expr, "ops": ops, "scale": 1}
+            if conf_cores:
+                case["conf_cores"] = conf_cores
+            cases.append(case)
     # ---- hist, unsteered: the raw queue.empty() polling decides the schedule; one exception class only
     for k in range(4 if not thorough else 30):
         n = rng.randint(2, 6)
@@ -312,55 +408,97 @@ def gen_cases(ctx):
     vals_pool = [-3, -2, -1, 0, 1, 2, 3, 7]
     for k in range(110 if not thorough else 1600):
         variant = ["free", "own", "free", "own", "both"][k % 5]
-        shape, pids = gen_shape_and_pids(rng)
-        n = rng.randint(2, 4)
-        ids = list(range(n))
-        rng.shuffle(ids)
-        hm = [False] * n
-        if variant != "free":
-            hm = [rng.random() < 0.6 for _ in ids]
-            if not any(hm):
-                hm[rng.randrange(n)] = True
-        own = gen_own(rng, ids, hm, pids)
-        ads = gen_ads(rng, n, len(pids), vals_pool if rng.random() < 0.4 else [], vis=True)
-        expr = rand_tree(rng, [{"j": j, "hm": h} for j, h in zip(ids, hm)])
-        free = None
-        if variant != "own":
-            free = gen_free_items(rng, shape, pids, own)
-            expr = {"free": expr}
-        nvals = len(pids) * n + 2
-        conf_cores = 2 if k % 3 == 2 else None
-        ops = gen_ops(rng, n, rng.randint(2, 6), lambda: [rng.choice(vals_pool) for _ in range(nvals)], 3, c0=conf_cores or 1)
-        case = {"kind": "idx", "ads": ads, "expr": expr, "shape": shape, "default": pids, "own": own,
-                "free": free, "ops": ops, "scale": 1}
-        if conf_cores:
-            case["conf_cores"] = conf_cores
-        cases.append(case)
+        cases.append(gen_idx_case(rng, variant, vals_pool, conf_cores=2 if k % 3 == 2 else None, repeated=k % 4 == 1,
+                                  twinned=k % 8 == 3))
+    # ---- idx, the named shapes with a repeated analysis x free / own models / both
+    for si, (_, skel) in enumerate(dup_shapes(lambda j: {"j": j})[:4]):
+        for vi, variant in enumerate(["free", "own", "both"]):
+            cases.append(gen_idx_case(rng, variant, vals_pool, conf_cores=2 if (si + vi) % 3 == 2 else None, skeleton=skel))
     # ---- real fits: plain / with_model / free (/ free over own models), any bracketing, 1-2 cores
     for k in range(16 if not thorough else 60):
         variant = ["plain", "own", "free", "plain", "own", "free", "both", "plain"][k % 8]
-        shape, pids = gen_shape_and_pids(rng)
-        n = rng.randint(2, 4)
-        ids = list(range(n))
-        rng.shuffle(ids)
-        hm = [False] * n
-        if variant in ("own", "both"):
-            hm = [rng.random() < 0.6 for _ in ids]
-            if not any(hm):
-                hm[rng.randrange(n)] = True
-        own = gen_own(rng, ids, hm, pids)
-        expr = rand_tree(rng, [{"j": j, "hm": h} for j, h in zip(ids, hm)])
-        free = None
-        if variant in ("free", "both"):
-            free = [{"prior": p} for p in sorted(set(rng.sample(pids, rng.randint(1, min(2, len(pids))))))]
-            expr = {"free": expr}
-        ads = gen_ads(rng, n, len(pids), [])
-        case = {"kind": "fit", "ads": ads, "expr": expr, "shape": shape, "default": pids, "own": own, "free": free,
-                "mod_delta": rng.choice([-4, 3, 7])}
-        if k % 2 == 1:
-            case["conf_cores"] = 2
-        cases.append(case)
+        cases.append(gen_fit_case(rng, variant, 2 if k % 2 == 1 else None, repeated=k % 5 == 2, twinned=k % 8 in (3, 4)))
+    # ---- real fits of the named shapes with a repeated analysis
+    shapes = dup_shapes(lambda j: {"j": j})
+    for si, variant, cc in [(0, "plain", None), (1, "plain", 2), (2, "free", 2), (3, "own", None), (0, "both", None)]:
+        cases.append(gen_fit_case(rng, variant, cc, skeleton=shapes[si][1]))
     return cases
+
+
+def with_hm(skel, hm_of):
+    """copy of an expression skeleton over leaves {"j": j} with hm set per analysis id"""
+    if "j" in skel:
+        return {"j": skel["j"], "hm": hm_of(skel["j"])}
+    k = next(iter(skel))
+    v = skel[k]
+    return {k: [with_hm(x, hm_of) for x in v] if isinstance(v, list) else with_hm(v, hm_of)}
+
+
+def gen_members(rng, need_own, repeated, skeleton):
+    """(expr, ids, hm, n positions, n distinct analyses)"""
+    if skeleton is not None:
+        ids = [j for j, _ in leaves(desugar(skeleton))]
+        nd = max(ids) + 1
+        hm_id = [need_own and rng.random() < 0.6 for _ in range(nd)]
+        if need_own and not any(hm_id):
+            hm_id[rng.randrange(nd)] = True
+        expr = with_hm(skeleton, lambda j: hm_id[j])
+        return expr, ids, [hm_id[j] for j in ids], len(ids), nd
+    n = rng.randint(2, 4)
+    if repeated:
+        n = rng.randint(3, 4)
+        ids, nd = dup_ids(rng, n)
+    else:
+        ids, nd = list(range(n)), n
+        rng.shuffle(ids)
+    hm = [False] * n
+    if need_own:
+        hm = [rng.random() < 0.6 for _ in ids]       # a repeated id may occur both as `a` and as `a.with_model(m)`
+        if not any(hm):
+            hm[rng.randrange(n)] = True
+    expr = rand_tree(rng, [{"j": j, "hm": h} for j, h in zip(ids, hm)])
+    return expr, ids, hm, n, nd
+
+
+def gen_idx_case(rng, variant, vals_pool, conf_cores=None, repeated=False, twinned=False, skeleton=None):
+    shape, pids = gen_shape_and_pids(rng)
+    expr, ids, hm, n, nd = gen_members(rng, variant != "free", repeated, skeleton)
+    own = gen_own(rng, ids, hm, pids)
+    ads = gen_ads(rng, nd, len(pids), vals_pool if rng.random() < 0.4 else [], vis=True)
+    if twinned and not repeated and skeleton is None:
+        twin(rng, ads)
+    free = None
+    if variant != "own":
+        free = gen_free_items(rng, shape, pids, own)
+        expr = {"free": expr}
+    nvals = len(pids) * n + 2
+    value = lambda: [rng.choice(vals_pool) for _ in range(nvals)]
+    ops = gen_ops(rng, n, rng.randint(2, 6), value, 3, c0=conf_cores or 1)
+    if not conf_cores and (repeated or twinned or skeleton is not None):
+        ops = serial_prefix(rng, value, 2) + ops
+    case = {"kind": "idx", "ads": ads, "expr": expr, "shape": shape, "default": pids, "own": own,
+            "free": free, "ops": ops, "scale": 1}
+    if conf_cores:
+        case["conf_cores"] = conf_cores
+    return case
+
+
+def gen_fit_case(rng, variant, conf_cores=None, repeated=False, skeleton=None, twinned=False):
+    shape, pids = gen_shape_and_pids(rng)
+    expr, ids, hm, n, nd = gen_members(rng, variant in ("own", "both"), repeated, skeleton)
+    own = gen_own(rng, ids, hm, pids)
+    free = None
+    if variant in ("free", "both"):
+        free = [{"prior": p} for p in sorted(set(rng.sample(pids, rng.randint(1, min(2, len(pids))))))]
+        expr = {"free": expr}
+    ads = gen_ads(rng, nd, len(pids), [])
+    if twinned and not repeated and skeleton is None:
+        twin(rng, ads)
+    case = {"kind": "fit", "ads": ads, "expr": expr, "shape": shape, "default": pids, "own": own, "free": free,
+            "mod_delta": rng.choice([-4, 3, 7])}
+    if conf_cores:
+        case["conf_cores"] = conf_cores
+    return case
 
 
 # ---------------------------------------------------------------------------
@@ -495,7 +633,9 @@ def oracle_history(c, r, lv, subs_of, out):
         if op[0] == "modify":
             # members without a with_model wrapper set themselves up in place (ModelAnalysis inherits the default
             # hook and does not ask the wrapped analysis); the combined analysis is rebuilt: n_cores from general.yaml
-            offs = [o if h else o + op[1] for o, (_, h) in zip(offs, lv)]
+            # modify_before_fit is called once per POSITION and the harness analyses change themselves in place: an
+            # object written k times has been modified k times when the next evaluation reads it at any of its positions
+            offs = [o if h else o + op[1] * m for o, (_, h), m in zip(offs, lv, multiplicity(lv))]
             cores, pool, tainted = c0, c0 > 1, False
             continue
         subs = subs_of(op[1])
@@ -596,7 +736,7 @@ def oracle(c, r):
             out.append(("save_results wrote (folder, analysis, child result handed over) %s, expected position i, "
                         "analysis i, child i" % r["res"], hooks))
         d = c.get("mod_delta", 0)
-        expo = sorted([j, 0 if h else d] for j, h in set(lv))
+        expo = sorted([j, 0 if h else d * lv.count((j, h))] for j, h in set(lv))     # one call per position, in place
         if "offs" in r and r["offs"] != expo:
             out.append(("during the fit the likelihoods were evaluated by members in state (analysis, offset) %s; after "
                         "modify_before_fit every evaluation must see %s" % (r["offs"], expo), set()))
@@ -802,10 +942,15 @@ def run(ctx):
                 "with_model and free-parameter sums on 1-2 cores). Non-trivial: struct with >= 3 analyses; hist with a pool whose "
                 "scripted schedule withholds a result at least once, that visualizes through the pool or that is used after a "
                 "raising call; idx with an effective free parameter, an own model, a pool visualize or a withholding schedule; "
-                "every real fit. distinct = distinct abstract input")
+                "every real fit. Every kind contains sums in which the same analysis object is written more than once (the named "
+                "shapes a+b+a, a+(b+a), (a+b)+(a+b), sum([c,c,c]) in every run + random repetitions) and distinct analyses "
+                "that compare/hash equal, evaluated serially before any pool exists and through the pool. "
+                "distinct = distinct abstract input")
     ctx.trusted = [
         "Coq 8.16.1 kernel incl. vm_compute",
-        "correspondence harness c15.py / impl/c15_impl.py: harness analyses (affine, integer or k/1024 valued => float sums exact), "
+        "correspondence harness c15.py / impl/c15_impl.py: harness analyses (affine, integer or k/1024 valued => float sums exact; "
+        "__eq__/__hash__ by content; modify_before_fit changes the object in place and returns it, so an object written k times "
+        "is modified k times - Model.fresh_members / modf_member), "
         "expression builder, desugaring of sum([...]) into a left fold of +, model builder from prior-id lists, "
         "canonical numbering of prior identities (by Prior.id)",
         "schedule steering: the main-process side of each AnalysisProcess.queue is wrapped by a proxy whose empty() follows the "
@@ -855,7 +1000,14 @@ def run(ctx):
         ctx.count_case(key, nontrivial(c), c["kind"])
         for lab in sorted(case_labels(c)):
             ctx.hist("label", lab)
+        ctx.hist("repeated_analysis:" + c["kind"], has_repeat(c))
         if c["kind"] in ("hist", "idx"):
+            ctx.hist("equal_twins:" + c["kind"], has_twin(c))
+            if has_repeat(c) or has_twin(c):
+                ctx.hist("repeated_or_twin:serial_evals_before_any_pool",
+                         sum(1 for op in (c["ops"] if not c.get("conf_cores") else [])[:next(
+                             (i for i, op in enumerate(c["ops"]) if op[0] in ("cores", "modify")), len(c["ops"]))]
+                             if op[0] == "eval"))
             ctx.hist("n_analyses", len(leaves(desugar(c["expr"]))))
             ctx.hist("cores_from_config", bool(c.get("conf_cores")))
             ctx.hist("scale", c.get("scale", 1))
@@ -867,6 +1019,7 @@ def run(ctx):
                 elif op[0] != "modify":
                     ctx.hist("scripted_passes", len(op[2]))
         if c["kind"] == "fit":
+            ctx.hist("equal_twins:fit", has_twin(c))
             ctx.hist("fit_variant", expected_struct(c)["kind"] + ("+own" if c.get("free") is not None and c["own"] else ""))
             ctx.hist("fit_cores", c.get("conf_cores", 1))
         ctx.oracle["cases"] += 1
@@ -931,7 +1084,9 @@ MANIFEST = {
             "availability masks = every schedule, histories of evaluations / visualize calls through map / raising calls of several "
             "exception classes / changes of n_cores), FreeParameterAnalysis/CombinedModelAnalysis.modify_model (sharing "
             "characterisation and |free|*n+|shared| count), the fit pipeline modify_before_fit -> make_result -> save_results "
-            "(position i = analysis i = child i = folder i) and an end-to-end statement over expressions; the model is parametrised "
+            "(position i = analysis i = child i = folder i), multiplicity of repeated analyses (C15_sum_multiplicity, "
+            "C15_serial/pool_multiplicity, C15_member_multiplicity, C15_free_params_count_of_expr; a sum over de-duplicated "
+            "analyses refuted) and an end-to-end statement over expressions; the model is parametrised "
             "by the recorded defects; vm_compute correspondence with the running code under externally steered pool schedules, "
             "real MockSearch fits, and a direct property oracle on every generated case",
     "note": "Trusted: Coq kernel + vm_compute, the correspondence harness incl. the queue proxies that steer pool schedules. "
